@@ -4,6 +4,7 @@ use std::hash::Hash;
 use std::sync::Arc;
 
 use dashmap::DashMap;
+use dashmap::mapref::entry::Entry;
 use dashmap::mapref::multiple::RefMulti;
 use log::info;
 use parking_lot::RwLock;
@@ -248,10 +249,13 @@ impl<Key> CacheWeight<Key>
 
     pub(crate) fn delete<DeleteHook>(&self, key_id: &KeyId, delete_hook: &DeleteHook)
         where DeleteHook: Fn(Key) {
-        if let Some(weight_by_key_hash) = self.key_weights.remove(key_id) {
+        // the lock on the total is taken while the key id is still in `key_weights` (same order as in `update`): between the
+        // removal of the id and the subtraction of its weight nobody may read a total that still includes the weight of an id that is gone
+        if let Entry::Occupied(entry) = self.key_weights.entry(*key_id) {
+            let mut guard = self.weight_used.write();
+            let weight_by_key_hash = entry.remove_entry();
             #[cfg(feature = "verif_hooks")]
             self.verif.point(crate::cache::verif::Site::CacheWeightDeleteAfterRemove);
-            let mut guard = self.weight_used.write();
             *guard -= weight_by_key_hash.1.weight;
             #[cfg(feature = "verif_hooks")]
             self.verif.point(crate::cache::verif::Site::CacheWeightDeleteInLock);
